@@ -11,8 +11,8 @@ import ast
 from dataclasses import dataclass
 
 from core.cfg import always_exits
-from core.guards import Formula, atoms_of, f_and, f_not, to_formula
-from core.loader import AnalysisError, FuncInfo, Repo, ancestors, norm, parent
+from core.guards import Formula, f_and, f_not, to_formula
+from core.loader import FuncInfo, Repo, ancestors, norm, parent
 
 from .c17_view import _walk_own
 from .common import bool_inliner, conds
